@@ -37,6 +37,11 @@ static void setup (interactive_t *ip)
 {
   int i;
   ip->ob = &obA;
+#ifdef STATE0
+  /* case split over the machine state (the jobs together cover the 8 states, CR flag symbolic) */
+  __CPROVER_assume ((IN.state & TS_STATE_MASK) == STATE0);
+  IN.state = (IN.state & ~TS_STATE_MASK) | STATE0;
+#endif
   ip->state = IN.state; ip->sb_pos = IN.sb_pos; ip->iflags = IN.iflags;
   for (i = 0; i < SB_SIZE; i++) ip->sb_buf[i] = IN.sb[i];
 }
